@@ -543,18 +543,9 @@ func snap(r *http.Request) reqSnap { return reqSnap{r.Method, r.URL.String(), en
 // urlGlue: results of the stdlib calls makeURLKey relies on (url.Parse and
 // ResolveReference), computed here with the standard library only.
 func urlGlue(u *url.URL) string {
-	// exactly the two stdlib calls of makeURLKey, error ignored as there (a nil base is fine
-	// for a reference that has a scheme)
-	base, _ := url.Parse(u.Scheme + "://" + u.Host)
-	var nz *url.URL
-	func() {
-		defer func() { _ = recover() }()
-		nz = base.ResolveReference(u)
-	}()
-	if nz == nil {
-		return "bad\t-\t-\t-\t-\t-"
-	}
-	return "ok\t" + hx(nz.Scheme) + "\t" + hx(nz.Host) + "\t" + hx(nz.EscapedPath()) + "\t" + hx(nz.RawQuery) + "\t" + hx(u.Opaque)
+	// the components url.Parse delivers (EscapedPath is the one stdlib call of makeURLKey on the path);
+	// dot segments, percent-encoding, case and ports are the model's business
+	return "ok\t" + hx(u.Scheme) + "\t" + hx(u.Host) + "\t" + hx(u.EscapedPath()) + "\t" + hx(u.RawQuery) + "\t" + hx(u.Opaque)
 }
 
 func runHistory(t *testing.T, h *History) (lines []string) {
